@@ -529,7 +529,9 @@ def gen_op(proj, ch, lab):
     op = {"op": "gen", "mapping": mod + ".MAPPING", "type": ch.choice(lab + ".type", ["class", "function", "argparse"]),
           "name_tpl": ch.choice(lab + ".tpl", ["{name}Config", "{name}_gen"]), "output": out,
           "prepend": ch.choice(lab + ".prepend", [None, None, "PREPENDED = 1\\n"]),
-          "imports_from_file": (mod + ".py") if ch.chance(lab + ".iff", 0.4) else None}
+          "imports_from_file": (mod + ".py") if ch.chance(lab + ".iff", 0.4) else None,
+          "emit_call": ch.chance(lab + ".emit_call", 0.25),
+          "decorators": ch.choice(lab + ".deco", [None, None, ["dataclass"], ["dataclass", "final"]])}
     return pre, op
 
 
